@@ -245,23 +245,95 @@ Lemma good_allocs : forall {A} g B (p : A -> Prop) m, good g B p m -> Forall (fu
 Proof. intros A g B p m (_ & _ & H & _). auto. Qed.
 
 (* result-relative allocation bound: requests <= K before the result is known, and
-   <= c * S(result) + K overall *)
+   <= c * max(0, S(result)) + K overall *)
+Definition Sres {A} (S_of : A -> Z) (o : outcome A) : Z := match o with Ok r => Z.max 0 (S_of r) | _ => 0 end.
 Definition bounded {A} (S_of : A -> Z) (c K : Z) (m : M A) : Prop :=
-  Forall (fun a => a <= c * (match fst m with Ok r => S_of r | _ => 0 end) + K) (snd m).
+  Forall (fun a => a <= c * Sres S_of (fst m) + K) (snd m).
+Lemma Sres_nonneg : forall {A} (S_of : A -> Z) o, 0 <= Sres S_of o.
+Proof. intros. unfold Sres. destruct o; lia. Qed.
+Lemma bounded_small : forall {A} (S_of : A -> Z) c K (m : M A),
+  0 <= c -> Forall (fun a => a <= K) (snd m) -> bounded S_of c K m.
+Proof.
+  intros. unfold bounded. eapply Forall_impl; [|exact H0]. simpl; intros x Hx.
+  pose proof (Sres_nonneg S_of (fst m)). nia.
+Qed.
 Lemma bounded_bind_small : forall {A C} (S_of : C -> Z) c K (m : M A) (f : A -> M C),
-  0 <= c -> (forall r, 0 <= S_of r) ->
-  Forall (fun a => a <= K) (snd m) -> (forall a l, m = (Ok a, l) -> bounded S_of c K (f a)) ->
+  0 <= c -> Forall (fun a => a <= K) (snd m) -> (forall a l, m = (Ok a, l) -> bounded S_of c K (f a)) ->
   bounded S_of c K (bind m f).
 Proof.
-  intros A C S_of c K [[a| | |] l] f Hc HS Hm Hf; unfold bounded, bind in *; simpl in *;
+  intros A C S_of c K [[a| | |] l] f Hc Hm Hf; unfold bounded, bind in *; simpl in *;
     try (eapply Forall_impl; [|exact Hm]; simpl; intros; lia).
   apply Forall_app. split; [|apply (Hf a l eq_refl)].
   eapply Forall_impl; [|exact Hm]. simpl. intros x Hx.
-  destruct (fst (f a)); try lia. specialize (HS a0). nia.
+  pose proof (Sres_nonneg S_of (fst (f a))). nia.
 Qed.
-Lemma bounded_small : forall {A} (S_of : A -> Z) c K (m : M A),
-  0 <= c -> (forall r, 0 <= S_of r) -> Forall (fun a => a <= K) (snd m) -> bounded S_of c K m.
+Lemma bounded_weaken : forall {A} (S_of : A -> Z) c K K' (m : M A), K <= K' -> bounded S_of c K m -> bounded S_of c K' m.
+Proof. intros. unfold bounded in *. eapply Forall_impl; [|exact H0]. simpl; intros; lia. Qed.
+
+(* ---------- generic loop predicates ---------- *)
+(* no panic (with the checks), no out-of-fuel, result-relative allocation bound *)
+Definition gloopP {A} (S_of : A -> Z) (c : Z) (g : bool) (bs : list Z) (m : M A) : Prop :=
+  (g = true -> fst m <> Panic) /\ fst m <> OutOfFuel /\ bounded S_of c (2 * zlen bs + 65536) m.
+
+Lemma gloopP_err : forall {A} (S_of : A -> Z) c g bs, gloopP S_of c g bs err.
+Proof. intros. unfold gloopP, bounded; simpl. split; [congruence|]. split; [congruence|constructor]. Qed.
+
+Lemma gloopP_mono : forall {A} (S_of : A -> Z) c g bs bs' m, zlen bs' <= zlen bs -> gloopP S_of c g bs' m -> gloopP S_of c g bs m.
 Proof.
-  intros. unfold bounded. eapply Forall_impl; [|exact H1]. simpl; intros x Hx.
-  destruct (fst m); try lia. specialize (H0 a). nia.
+  intros A S_of c g bs bs' m H (X & Y & Z0). split; [exact X|]. split; [exact Y|].
+  eapply bounded_weaken; [|exact Z0]. lia.
 Qed.
+
+Lemma gloopP_bind : forall {A C} (S_of : C -> Z) c g bs (pa : A -> Prop) (pf : M A) (f : A -> M C),
+  0 <= c -> good g 65536 pa pf -> (forall a, pa a -> gloopP S_of c g bs (f a)) -> gloopP S_of c g bs (bind pf f).
+Proof.
+  intros A C S_of c g bs pa pf f Hc (G1 & G2 & G3 & G4) Hf.
+  assert (Hsm : Forall (fun a => a <= 2 * zlen bs + 65536) (snd pf)).
+  { eapply Forall_impl; [|exact G3]. cbv beta; intros. pose proof (zlen_nonneg bs). lia. }
+  split; [|split].
+  - intros Hg. destruct pf as [[a| | |] l]; unfold bind; cbn [fst snd] in *; try congruence;
+      try (exfalso; apply (G1 Hg); reflexivity).
+    apply (Hf a (G4 a eq_refl)); auto.
+  - destruct pf as [[a| | |] l]; unfold bind; cbn [fst snd] in *; try congruence;
+      try (exfalso; apply G2; reflexivity).
+    apply (Hf a (G4 a eq_refl)).
+  - apply bounded_bind_small; [exact Hc|exact Hsm|]. intros a l E. rewrite E in G4. apply (Hf a (G4 a eq_refl)).
+Qed.
+
+(* the last step of a loop: large allocations, then the result r *)
+Lemma gloopP_final : forall {C} (S_of : C -> Z) c g bs (pf : M unit) (r : C),
+  (forall g', good g' (c * Z.max 0 (S_of r) + 2 * zlen bs + 65536) (fun _ => True) pf) -> fst pf <> Err ->
+  gloopP S_of c g bs (bind pf (fun _ => ret r)).
+Proof.
+  intros C S_of c g bs pf r Hg Hne.
+  destruct (Hg g) as (S1 & S2 & S3 & _). destruct (Hg true) as (T1 & _).
+  destruct pf as [[[]| | |] la]; cbn [fst snd] in *; unfold bind, ret, gloopP; cbn [fst snd].
+  - split; [congruence|]. split; [congruence|]. unfold bounded, Sres; cbn [fst snd]. rewrite app_nil_r.
+    eapply Forall_impl; [|exact S3]. cbv beta. intros; lia.
+  - exfalso; apply Hne; reflexivity.
+  - exfalso; apply T1; reflexivity.
+  - exfalso; apply S2; reflexivity.
+Qed.
+
+(* weaker: only no-panic and no-out-of-fuel (decoders that allocate at header time) *)
+Definition loopQ {A} (g : bool) (m : M A) : Prop := (g = true -> fst m <> Panic) /\ fst m <> OutOfFuel.
+Lemma loopQ_err : forall {A} g, loopQ g (@err A).
+Proof. intros. unfold loopQ; simpl. split; congruence. Qed.
+Lemma loopQ_ret : forall {A} g (a : A), loopQ g (ret a).
+Proof. intros. unfold loopQ; simpl. split; congruence. Qed.
+Lemma loopQ_bind : forall {A C} g B (pa : A -> Prop) (pf : M A) (f : A -> M C),
+  good g B pa pf -> (forall a, pa a -> loopQ g (f a)) -> loopQ g (bind pf f).
+Proof.
+  intros A C g B pa pf f (G1 & G2 & G3 & G4) Hf. split.
+  - intros Hg. destruct pf as [[a| | |] l]; unfold bind; cbn [fst snd] in *; try congruence;
+      try (exfalso; apply (G1 Hg); reflexivity).
+    apply (Hf a (G4 a eq_refl)); auto.
+  - destruct pf as [[a| | |] l]; unfold bind; cbn [fst snd] in *; try congruence;
+      try (exfalso; apply G2; reflexivity).
+    apply (Hf a (G4 a eq_refl)).
+Qed.
+
+Lemma good_lift_any : forall {A} g B (post : A -> Prop) (o : outcome A),
+  o <> OutOfFuel -> (g = true -> o <> Panic) -> (forall a, o = Ok a -> post a) -> good g B post (lift o).
+Proof. intros. unfold good, lift; cbn [fst snd]. split; [auto|]. split; [auto|]. split; [constructor|auto]. Qed.
+
